@@ -237,9 +237,18 @@ func helperOverlap(r *rand.Rand) []spec.Op {
 }
 
 func randCase(r *rand.Rand) spec.Casing {
-	mode := r.Intn(3)
+	mode := r.Intn(4)
+	// mode 3: every argument is re-cased independently (upper case in ONE argument position only, etc.)
+	ar := rand.New(rand.NewSource(r.Int63()))
 	return func(s string) string {
-		switch mode {
+		m := mode
+		if mode == 3 {
+			m = ar.Intn(4)
+			if m == 3 {
+				return s
+			}
+		}
+		switch m {
 		case 0:
 			return strings.ToUpper(s)
 		case 1:
